@@ -45,7 +45,12 @@ CLAIM = dict(
           "the FINAL tables without any flag - on a machine whose working chips and links are exactly those the SystemInfo "
           "reports (machine_is_sysinfo: C14 build_machine_exact carried over the bridge) - AND every allocated core is a "
           "core the SystemInfo has on that chip and reports idle (AllocIdle: C14 reservations_partition + C05 alloc_sound: a "
-          "core reserved by build_core_constraints or beyond num_cores is never allocated); the deprecated wrapper() "
+          "core reserved by build_core_constraints or beyond num_cores is never allocated; allocIdleB_iff: the decided form the "
+          "harness evaluates IS AllocIdle); every description that get_system_info returns on a machine served as C14's machine "
+          "specification says is in that domain (sidomain_of_probe), so the statement holds from the machine's memory "
+          "onwards (probed_wrapper_delivers; allocIdle_machine_state: an allocated core is a working, non-busy core of the "
+          "MACHINE STATE); wrapper_only_failure: the wrapper model fails only with the placer's error or the documented "
+          "failures of afterPlace_only_failure; the deprecated wrapper() "
           "(reserve_monitor / align_sdram in every combination, tables by build_routing_tables) is deprecatedPipeline with "
           "deprecated_pipeline_delivers; the hypotheses are non-vacuous and the wrapper model is run in the kernel "
           "(exw_runs, exw_sidomain, exw_domain, exw_placerDomain). Tied to the code on every run: (a) the real "
@@ -62,7 +67,11 @@ CLAIM = dict(
           "coordinates, breadth_first chip_order, hilbert breadth_first=False, annealing effort, kernels); Lean `deliver` "
           "is executed on the final tables the entry point RETURNED for every net (base key + fillings of the don't-care "
           "bits) and its verdict compared with the deliveries expected from the returned placements, the returned "
-          "allocations UNDER THE CORES IDENTIFIER THE CALLER NAMED, and the endpoint constraints; stage "
+          "allocations UNDER THE CORES IDENTIFIER THE CALLER NAMED, and the endpoint constraints; whenever machine and "
+          "constraints came from a SystemInfo (place_and_route_wrapper, or build_machine + build_core_constraints by hand; "
+          "all seven placers) the Lean predicate `allocBad` (= AllocIdle, allocIdleB_iff) is evaluated on the returned "
+          "placements / allocations: a core handed to a vertex that the SystemInfo reports busy or does not have is the "
+          "finding `allocated-core-not-idle`; stage "
           "correspondences (C10, C04 models and the C01 type bridges) and stage hypotheses are re-checked inside every "
           "pipeline run; (b) the Lean `modelPipeline` itself is run on generated problems with the oracle inputs recorded "
           "from the hand-chained implementation with the sequential placer and compared stage by stage - placements "
@@ -138,7 +147,8 @@ CLAIM = dict(
           "build_application_map result is independent of delivery and not modelled; the step from the machine's memory to "
           "the SystemInfo is C14's get_system_info_exact / probe_to_machine_exact (SIDomain is what those theorems "
           "establish for every probed machine); wrapper_pipeline_delivers keeps C02's Consistent / EmptyOK / oracle-order "
-          "hypotheses stated on the derived constraint list (WPlacerDomain; non-negative chip resources are proved). The "
+          "hypotheses stated on the derived constraint list (WPlacerDomain; non-negative chip resources are proved, EmptyOK is "
+          "vacuous as soon as there is a vertex: emptyOK_of_vertices). The "
           "wrapper stream runs the whole chain with the sequential placer only (the other placers through the wrappers: "
           "oracle stream (a)). `allocated-core-not-idle` is reported as a violation of THIS property: a packet of a net whose "
           "sink was given a busy or non-existent core is delivered to a core that is not the sink's. A packet returning to a chip already on its path counts as "
@@ -172,7 +182,8 @@ THEOREMS = ["deliveredB_iff", "delivered_no_flag", "deliver_of_tree", "deliver_o
             # wrappers (Props/C01Wrap.lean)
             "domain_of_sysinfo", "placerDomain_of_sysinfo", "machine_is_sysinfo", "alloc_idle",
             "wrapper_pipeline_delivers", "wrapper_pipeline_no_flag", "domain_deprecated", "deprecated_pipeline_delivers",
-            "exw_runs", "exw_sidomain", "exw_domain", "exw_placerDomain"]
+            "exw_runs", "exw_sidomain", "exw_domain", "exw_placerDomain", "allocIdleB_iff",
+            "sidomain_of_probe", "probed_wrapper_delivers", "allocIdle_machine_state", "wrapper_only_failure", "emptyOK_of_vertices"]
 
 RULE = ("pipelines on machines 1x1..8x8 (quick) / ..24x24 (thorough), torus / mesh / partly wrapped, dead chips, links dead "
         "in one or both directions, per-chip core-count exceptions, busy cores (monitor + random) as SystemInfo core "
@@ -195,7 +206,7 @@ RULE = ("pipelines on machines 1x1..8x8 (quick) / ..24x24 (thorough), torus / me
         "machine with 15-40% dead links. Wrapper-model stream: the same problem generator, placer = sequential, api = "
         "place_and_route_wrapper (3 of 4) / deprecated wrapper (1 of 4, reserve_monitor / align_sdram on and off), every radius "
         "and method chain, targets = the SystemInfo's free router entries (1023 / 0 / 2 / 5 / 12, per-chip exceptions), resource "
-        "identifiers default or custom; 150 (quick) / 2500 (thorough) problems, every fourth on a machine with 15-40% dead "
+        "identifiers default or custom; 100 (quick) / 1500 (thorough) problems, every fourth on a machine with 15-40% dead "
         "links. Sequence stream: 220 (quick) / 2000 (thorough) sequences of 2-4 pipeline runs on "
         "machines 2x1..5x1 / 4x4, placer in {sequential, hilbert, rcm, breadth_first, rand, sa-python}, api in "
         "{hand-chained, build_machine, place_and_route_wrapper with 1-5 free router entries}, methods {default, oc}, target "
@@ -1073,6 +1084,11 @@ def lean_requests(prob, out, rng):
         # far beyond the usual size / inside a history: the delivery oracle only (the stage ties are exercised by
         # the ordinary stream)
         return reqs, idx
+    # 1c. allocated cores are idle cores of the SystemInfo (`Rig.C01Wrap.allocBad`, the decided form of `AllocIdle` of
+    # wrapper_pipeline_delivers / alloc_idle) whenever machine and constraints were derived from a SystemInfo
+    if prob["cfg"]["api"] in ("wrapper", "manual-sysinfo"):
+        reqs.append(alloc_idle_request(prob, out))
+        idx.append(("alloc_idle", None))
     # 2. C10 model on the implementation's trees
     c10nets = [{"key": p[3], "mask": p[4], "tree": tree_c10(routes[n])} for n, p in zip(nets, prob["nets"])]
     impl0 = {"ok": [[list(c), [c10.canon_entry(e) for e in es]] for c, es in out["tables0"].items()]}
@@ -1150,6 +1166,13 @@ def judge(prob, out, replies, idx):
                         findings.append(("violation", why,
                                          "net %d (source vertex %d) key %#010x: %s (%s); events %s" % (
                                              i, prob["nets"][i][0], k, why, stage, str(q["evs"])[:400])))
+        elif what == "alloc_idle":
+            if not r["holds"]:
+                v, x, y, p = r["bad"][0]
+                findings.append(("violation", "allocated-core-not-idle",
+                                 "vertex %d was allocated core %d of chip (%d, %d) although machine and constraints were "
+                                 "derived from a SystemInfo that reports that core absent or not idle (packets of nets with this "
+                                 "sink are delivered to a core that is not the sink's; %d such cores)" % (v, p, x, y, len(r["bad"]))))
         elif what == "c10.tables":
             if c10.norm_tables(meta) != c10.norm_tables(r):
                 findings.append(("mismatch", "c01.c10-tables", "routing_tree_to_tables differs from the C10 model on "
@@ -1821,7 +1844,7 @@ def alloc_idle_request(prob, out):
     from . import c14
     o = out["o"]
     Vinv = o["Vinv"]
-    pl, al = out["returned"][0], out["returned"][1]
+    pl, al = out["returned"][:2] if "returned" in out else (out["placements"], out["allocations"])
     return {"suite": "c01wrap", "op": "alloc_idle", "sysinfo": c14.si_json(o["sysinfo"]),
             "placement": [[Vinv[v], [int(c[0]), int(c[1])]] for v, c in pl.items()],
             "alloc": [[Vinv[v], [[0, int(sl.start), int(sl.stop)] for r, sl in va.items() if r is o["ids"][0] or r == o["ids"][0]]]
@@ -2822,7 +2845,7 @@ def run(ctx):
     eval_scale(ctx, ctx.scale(3, 12))
     # the wrapper models (subject of `wrapper_pipeline_delivers`) = the real wrappers, SystemInfo onwards
     # (last, so that the earlier streams draw what they drew before this stream existed)
-    nwrap = ctx.scale(150, 2500)
+    nwrap = ctx.scale(100, 1500)
     if ctx.extended:
         nwrap *= 4
     wprobs = []
